@@ -5,6 +5,7 @@ import (
 	"bytes"
 	"fmt"
 	"io"
+	"strings"
 	"math/big"
 	"testing"
 
@@ -117,6 +118,14 @@ func importSnapshot(height uint64, root common.Hash, archive []byte) (err error,
 			err = fmt.Errorf("verif: import succeeded but the loaded root %x is not the advertised %x", sdb.Root().Bytes()[:6], root.Bytes()[:6])
 		}
 		contents = treeContents(sdb)
+		// every key must also be FOUND by a lookup (the search path goes through the inner node keys,
+		// which the root hash does not cover)
+		for _, kv := range contents {
+			if got := sdb.VerifTreeGet(kv.k); !bytes.Equal(got, kv.v) {
+				err = fmt.Errorf("verif-lookup: import succeeded with the advertised root, but looking key %x up returns %d bytes instead of the stored %d bytes", trunc(kv.k, 12), len(got), len(kv.v))
+				break
+			}
+		}
 	}
 	return
 }
@@ -174,6 +183,9 @@ func checkCorruption(rep *verifutil.Report, sc *snapCase, class, region string, 
 	case pnc != nil:
 		rep.Count("outcome:panic", 1)
 		rep.Violation("snapshot-import-panics:"+class, fmt.Sprintf("importing snapshot %s with corruption %s (%s, %s) panics: %v", sc.name, class, region, detail, pnc), map[string]interface{}{"snapshot": sc.name, "class": class, "detail": detail})
+	case err != nil && strings.HasPrefix(err.Error(), "verif-lookup:"):
+		rep.Count("outcome:accepted-but-lookups-wrong", 1)
+		rep.Violation("corrupted-snapshot-accepted-with-wrong-lookups:"+class, fmt.Sprintf("snapshot %s with corruption %s (%s): %v", sc.name, class, detail, err), nil)
 	case err != nil:
 		rep.Count("outcome:refused", 1)
 		if leftover != 0 {
